@@ -32,6 +32,8 @@ ASSUMPTIONS = [
     "line breaks are exactly \\r\\n, \\r and \\n (lexer docstring: 'Only \\n, \\r\\n and \\r are treated as line breaks')",
     "surrogate code points are not generated (they cannot be encoded and are outside what a loader can deliver)",
     "comment bodies do not begin/end with '+' or '-' and are non-empty (ambiguous with a modifier)",
+    "lstrip_blocks before a tag preceded on its line by whitespace other than spaces/tabs is not judged (configuration skipped, counted)",
+    "environments are reused across cases inside a worker (configuration objects only)",
 ]
 
 NK = [(n, k) for n in ws.NL_SEQS for k in (False, True)]
@@ -114,6 +116,8 @@ def _skel(case):
             except ws.Decline:
                 raise core.Discard()
             effects |= a.effects
+            if a.ambiguous:
+                continue
             for nls in ws.NL_SEQS:
                 exp = a.rendered(nls)
                 got = get_env(syn_name, trim, lstrip, nls, ktn).from_string(src).render()
@@ -129,6 +133,8 @@ def _skel(case):
     look = any(skel.LOOKALIKE_RE.search(s[3]) for s in case["sk"] if s[0] in ("comment", "raw"))
     kinds = {s[0] for s in csk}
     labels = {"skel", "syn:" + syn_name} | {"kind:" + k for k in kinds}
+    if "lstrip:ambiguous-ws" in effects:
+        labels.add("lstrip:ambiguous-ws(config skipped)")
     if look:
         labels.add("lookalike-body")
     if no_minus and kinds - {"text"}:
@@ -169,9 +175,9 @@ def run_shard(spec, ctx):
         core.enum_shard(({"kind": "plain", "src": s} for s in gen), check_case, ctx, rec=rec)
     if rec.violations:
         return rec
-    core.hyp_shard(skel.long_texts(ctx.pick(400, 2000)).map(lambda s: {"kind": "plain", "src": s}), check_case, ctx,
-                   ctx.pick(250, 2500), rec=rec, tag="long")
-    core.hyp_shard(skel_strategy(SHARD_SYN[ctx.index % 16]), check_case, ctx, ctx.pick(1500, 30000), rec=rec, tag="skel")
+    skel.hyp_chunks(skel.long_texts(ctx.pick(400, 2000)).map(lambda s: {"kind": "plain", "src": s}), check_case, ctx,
+                    ctx.pick(250, 2500), rec, "long", chunk=500)
+    skel.hyp_chunks(skel_strategy(SHARD_SYN[ctx.index % 16]), check_case, ctx, ctx.pick(1500, 30000), rec, "skel")
     return rec
 
 
